@@ -31,14 +31,14 @@
    ---- dispatch
    step, `_ => SStop AUB`                       transmute of an invalid opcode byte      valid_opcode    PROVED
    ---- operand reads (slice index past the end of the code = panic)
-   i_4,5,6,8,17,18,19,20,28,38,43/44 None       read_le None  -> APanic                  operands_ok     PROVED for 5 6 8 17 18 19 20 28 38;
+   i_4,5,6,8,17,18,19,20,28,38,43/44,46 None    read_le None  -> APanic                  operands_ok     PROVED for 5 6 8 17 18 19 20 28 38 46;
                                                                                                          4 43 44 not covered
    i_29_30 op_u32 None                          same                                     operands_ok     PROVED
    i_35 / i_36 / i_37_42 / i_45  `_, _ =>`      same (2, 5, 2, 2 operands)               operands_ok     PROVED for 35 37 42; 36 45 not covered
    i_8 / i_38 StrPanic                          (no longer produced by read_str, A-23)   -               PROVED (read_str_no_panic)
    ---- "Call stack was empty" expect / last().unwrap()
    i_11 go `[] => SStop APanic`                 call_stack.last_mut().expect             calls_nonempty  PROVED
-   i_19, i_20, i_21, i_35, i_36 top_offset None same                                     calls_nonempty  PROVED (36 not covered)
+   i_19, i_20, i_21, i_35, i_36, i_46 top_offset None  same                              calls_nonempty  PROVED (36 not covered)
    i_43_44 `[] =>`, i_45 `[] =>`/top_offset     same                                     calls_nonempty  not covered
    ---- dangling heap address (use after free) = UB
    of_vres VUb <- arith_op/div_op cast_match None   len of a dangling object             heap_closed     PROVED (0 1 2 3)
@@ -396,7 +396,7 @@ Proof. intros H a s' E. rewrite E in H. exact H. Qed.
 Definition operand_len (opc : N) : N :=
   match opc with
   | 5 | 6 => 8
-  | 4 | 8 | 17 | 18 | 19 | 20 | 28 | 29 | 30 | 38 | 43 | 44 => 4
+  | 4 | 8 | 17 | 18 | 19 | 20 | 28 | 29 | 30 | 38 | 43 | 44 | 46 => 4   (* 46: u32 since d723a2c *)
   | 35 | 36 => 20
   | 37 | 42 => 8
   | 45 => 2
@@ -861,7 +861,9 @@ Lemma ns_46 : opcode_at P ip0 = 46%N -> no_stop STEP.
 Proof.
   intros Hop. assert (Hopen : st_open s = None).
   { apply (sp_open P ip0 s Hpre). rewrite Hop. cbn [In]. tauto. }
-  step_opc Hop. unfold i_46. destruct (scount s =? 0); [exact I|].
+  pose proof Hop as Hk. step_opc Hop. unfold i_46.
+  destruct (operands_4 _ Hk ltac:(vm_compute; discriminate)) as [idx ->].
+  destruct (top_offset_some s Hcalls) as [off ->]. cbv zeta.
   rewrite close_upvalues_none by exact Hopen. exact I.
 Qed.
 
